@@ -1,6 +1,8 @@
 import PoxModel.Proofs.Match
 import PoxModel.Proofs.FlowTable
 import PoxModel.Proofs.MatchSubsume
+import PoxModel.Proofs.MatchSelf
+import PoxModel.Proofs.MatchV
 /-! # C03 — flow match and lookup semantics agree with OpenFlow 1.0
 
 Property theorems only.  Model: `Model/Match.lean` (`ofp_match`), `Model/FlowTable.lean` (`FlowTable`); standard:
@@ -125,70 +127,178 @@ theorem miss_iff_wire (fs : List Spec.Flow) (p : PHdr) (port : Nat) (hfs : ∀ f
     rw [← matches_iff f.mtch p port (hfs f hf).prereq (hfs f hf).tos hr hpt] at this
     exact this
 
-/-! ## every history of table operations -/
+/-! ## a flow built from a packet -/
+
+/-- **Extract-then-match.**  The match `from_packet(packet, in_port, spec_frags)` builds — for any frame shape (LLC/SNAP, 802.1Q
+    with PCP, ARP with any opcode, ICMP, fragments, truncated headers), any `in_port` (also `None`), either `spec_frags` — sent as
+    `pack(flow_mod=True)` and received with `unpack(flow_mod=True)`, accepts that packet's own match in the switch's lookup test. -/
+theorem flow_from_packet_matches (arpGuard specFrags : Bool) (p : PHdr) (inPort : Option Nat) :
+    (ofWire (packFlowMod (fromPacketG arpGuard specFrags p inPort))).matchesWith false (fromPacketG arpGuard specFrags p inPort) = true :=
+  selfflow_accepts _
+
+/-- the switch's own extraction (`spec_frags=True`, port given): a flow installed for a packet is hit by that packet -/
+theorem flow_from_packet_hit (p : PHdr) (port : Nat) :
+    Entry.accepts (fromPacket p port) ({ priority := 0, mtch := ofWire (packFlowMod (fromPacket p port)), data := () } : Entry Unit) = true :=
+  selfflow_accepts _
+
+/-- `spec_frags` only matters for IP fragments -/
+theorem spec_frags_irrelevant (g : Bool) (p : PHdr) (ip : Option Nat)
+    (h : ∀ s d pr tos l4, p.l3 ≠ .ipv4 s d pr tos true l4) : fromPacketG g false p ip = fromPacketG g true p ip := by
+  obtain ⟨src, dst, typ, llc, vlan, l3⟩ := p
+  unfold fromPacketG
+  congr 1
+  cases l3 with
+  | ipv4 s d pr tos frag l4 =>
+    cases frag
+    · cases llc with
+      | none => simp [extractG]
+      | some l => by_cases hs : l.snapOui = some 0 <;> simp [extractG, hs]
+    · exact absurd rfl (h s d pr tos l4)
+  | arp op s d =>
+    cases llc with
+    | none => simp [extractG]
+    | some l => by_cases hs : l.snapOui = some 0 <;> simp [extractG, hs]
+  | other =>
+    cases llc with
+    | none => simp [extractG]
+    | some l => by_cases hs : l.snapOui = some 0 <;> simp [extractG, hs]
+
+/-- **When the flow built from a packet is exact-match for the switch**: exactly when `from_packet` assigned all twelve fields of
+    an IPv4 match with protocol 1, 6 or 17 … -/
+theorem flow_from_packet_exact_iff (g sf : Bool) (p : PHdr) (ip : Option Nat) :
+    (ofWire (packFlowMod (fromPacketG g sf p ip))).isExact = true ↔
+      allAssigned (extractG g sf p ip) ∧ (extractG g sf p ip).dlType = some 0x0800 ∧
+      ∃ pr, (extractG g sf p ip).nwProto = some pr ∧ isL4Proto pr = true := by
+  rw [← selfflow_exact_iff]; simp [isExact, fromPacketG]
+
+/-- … which is the case for every complete IPv4 TCP / UDP / ICMP packet (fragments included) arriving on a port: the exact-match
+    flow built from such a packet is never treated as wildcarded and gets the priority above all 16-bit priorities. -/
+theorem flow_from_packet_exact (p : PHdr) (port priority : Nat) (hr : regular p = true) (hl : isL4Packet p = true) :
+    (ofWire (packFlowMod (fromPacket p port))).isExact = true ∧
+    ({ priority := priority, mtch := ofWire (packFlowMod (fromPacket p port)), data := () } : Entry Unit).effectivePriority = EXACT_PRIORITY := by
+  have h : (ofWire (packFlowMod (fromPacket p port))).isWildcarded = false :=
+    (selfflow_exact_iff _).mpr (l4packet_allAssigned p port hr hl)
+  exact ⟨by simp [isExact, h], by simp [Entry.effectivePriority, h]⟩
+
+/-! ## every history of table operations
+
+`v : Variant` says which of the proposed repairs D26 / D37 / D38 the code has (`Model/MatchV.lean`); `Variant.head` is `/repo`
+HEAD, for which `v.effectivePriority`, `v.ofWire`, `v.fromPacket`, … are the functions used above (`Variant.head_*`, by `rfl`). -/
+
 open TableOps in
 /-- **Invariant, by induction over the operation list.**  After every sequence of `add_entry` (any priority, any match),
     `remove_entry`, `remove_matching_entries` (strict or not, any out_port filter) and `remove_expired_entries` (whatever decides
     expiry), in any order and including calls that raise, the table is sorted by descending effective priority. -/
-theorem history_sorted (ops : List (Op α)) : Sorted (run ops) := run_sorted ops
+theorem history_sorted (v : Variant) (ops : List (Op α)) : SortedBy v.effectivePriority (run v.effectivePriority ops) :=
+  run_sorted _ ops
 
 open TableOps in
 /-- one step of the induction: each operation preserves sortedness from *any* sorted table -/
-theorem step_preserves_sorted (tbl : Table α) (op : Op α) (hs : Sorted tbl) : Sorted (step tbl op).1 := step_sorted tbl op hs
+theorem step_preserves_sorted (v : Variant) (tbl : Table α) (op : Op α) (hs : SortedBy v.effectivePriority tbl) :
+    SortedBy v.effectivePriority (step v.effectivePriority tbl op).1 := step_sorted _ tbl op hs
 
 open TableOps in
 /-- where `add_entry` puts the entry: behind everything of higher effective priority, in front of everything of equal or lower —
     in particular in front of the older entries of the same priority -/
-theorem add_position (tbl : Table α) (e : Entry α) (hs : Sorted tbl) :
-    ∃ l r, tbl = l ++ r ∧ (step tbl (.add e)).1 = l ++ e :: r ∧
-      (∀ x ∈ l, x.effectivePriority > e.effectivePriority) ∧ (∀ x ∈ r, x.effectivePriority ≤ e.effectivePriority) := by
-  rw [step_add]; exact addEntry_position e tbl hs
+theorem add_position (v : Variant) (tbl : Table α) (e : Entry α) (hs : SortedBy v.effectivePriority tbl) :
+    ∃ l r, tbl = l ++ r ∧ (step v.effectivePriority tbl (.add e)).1 = l ++ e :: r ∧
+      (∀ x ∈ l, v.effectivePriority x > v.effectivePriority e) ∧ (∀ x ∈ r, v.effectivePriority x ≤ v.effectivePriority e) := by
+  rw [step_add]; exact addEntryBy_position _ e tbl hs
 
 open TableOps in
 /-- the removing operations delete entries and change nothing else: what is left is a sub-list (same relative order), and the
     only call that raises is `remove_entry` of an object that is not in the table -/
-theorem removal_sublist (tbl : Table α) (op : Op α) (h : ∀ e, op ≠ .add e) :
-    (step tbl op).1.Sublist tbl ∧ ((step tbl op).2 = true ↔ ∃ i, op = .removeAt i ∧ tbl.length ≤ i) :=
-  ⟨step_sublist tbl op h, step_raises_iff tbl op⟩
+theorem removal_sublist (v : Variant) (tbl : Table α) (op : Op α) (h : ∀ e, op ≠ .add e) :
+    (step v.effectivePriority tbl op).1.Sublist tbl ∧
+    ((step v.effectivePriority tbl op).2 = true ↔ ∃ i, op = .removeAt i ∧ tbl.length ≤ i) :=
+  ⟨step_sublist _ tbl op h, step_raises_iff _ tbl op⟩
 
 open TableOps in
 /-- exact-match entries stand in front of every wildcarded one after every history (16-bit priorities) -/
-theorem history_exact_first (ops : List (Op α)) (hp : ∀ e ∈ added ops, e.priority ≤ 0xffff) (i j : Nat)
-    (hi : i < (run ops).length) (hj : j < (run ops).length)
-    (he : (run ops)[i].mtch.isExact = true) (hw : (run ops)[j].mtch.isWildcarded = true) : i < j := by
+theorem history_exact_first (v : Variant) (ops : List (Op α)) (hp : ∀ e ∈ added ops, e.priority ≤ 0xffff) (i j : Nat)
+    (hi : i < (run v.effectivePriority ops).length) (hj : j < (run v.effectivePriority ops).length)
+    (he : v.isWildcarded (run v.effectivePriority ops)[i].mtch = false)
+    (hw : v.isWildcarded (run v.effectivePriority ops)[j].mtch = true) : i < j := by
   apply Classical.byContradiction
   intro hn
   have hne : i ≠ j := by
     rintro rfl
-    simp [isExact, hw] at he
+    rw [he] at hw; cases hw
   have hlt : j < i := by omega
-  have hs := List.pairwise_iff_getElem.mp (history_sorted ops) j i hj hi hlt
-  have hpj : (run ops)[j].priority ≤ 0xffff := hp _ (mem_run ops _ (List.getElem_mem hj))
-  have hei : (run ops)[i].mtch.isWildcarded = false := by simpa [isExact] using he
-  simp only [Entry.effectivePriority, hw, hei, if_true, EXACT_PRIORITY] at hs
+  have hs := List.pairwise_iff_getElem.mp (history_sorted v ops) j i hj hi hlt
+  have hpj : (run v.effectivePriority ops)[j].priority ≤ 0xffff := hp _ (mem_run _ ops _ (List.getElem_mem hj))
+  simp only [Variant.effectivePriority, hw, he, if_true, EXACT_PRIORITY] at hs
   simp at hs
   omega
 
 open TableOps in
 /-- after every history, `entry_for_packet` returns an accepted entry that no accepted entry of the table outranks, and misses
     exactly when the table holds no accepted entry -/
-theorem history_lookup (ops : List (Op α)) (p : PHdr) (port : Nat) :
-    (∀ e, entryForPacket (run ops) p port = some e →
-      e ∈ run ops ∧ e.accepts (fromPacket p port) = true ∧
-      ∀ e' ∈ run ops, e'.accepts (fromPacket p port) = true → e'.effectivePriority ≤ e.effectivePriority) ∧
-    (entryForPacket (run ops) p port = none ↔ ∀ e ∈ run ops, e.accepts (fromPacket p port) = false) := by
-  obtain ⟨h1, h2⟩ := first_match_max Entry.effectivePriority (Entry.accepts (fromPacket p port)) (run ops) (history_sorted ops)
+theorem history_lookup (v : Variant) (ops : List (Op α)) (p : PHdr) (port : Nat) :
+    (∀ e, v.entryForPacket (run v.effectivePriority ops) p port = some e →
+      e ∈ run v.effectivePriority ops ∧ e.accepts (v.fromPacket p port) = true ∧
+      ∀ e' ∈ run v.effectivePriority ops, e'.accepts (v.fromPacket p port) = true → v.effectivePriority e' ≤ v.effectivePriority e) ∧
+    (v.entryForPacket (run v.effectivePriority ops) p port = none ↔
+      ∀ e ∈ run v.effectivePriority ops, e.accepts (v.fromPacket p port) = false) := by
+  obtain ⟨h1, h2⟩ := first_match_max v.effectivePriority (Entry.accepts (v.fromPacket p port)) (run v.effectivePriority ops)
+    (history_sorted v ops)
   exact ⟨fun e he => by obtain ⟨a, b, c⟩ := h1 e he; exact ⟨b, a, c⟩, h2⟩
 
 open TableOps in
-/-- **Lookup against the standard after every history.**  Whatever sequence of flow-mod-created entries (regular transmitted
-    flows, `FlowOk`) has been added and whatever has been removed, matched away or expired in between, for every complete frame
+/-- **Lookup against the standard after every history.**  Whatever sequence of flow-mod-created entries (transmitted flows
+    satisfying `v.FlowOk`) has been added and whatever has been removed, matched away or expired in between, for every complete frame
     `entry_for_packet` answers with a flow *currently in the table* that matches per the standard and that no matching flow
-    currently in the table outranks (exact-match flows above every priority) — and with a miss exactly when none matches. -/
-theorem history_lookup_wire (ops : List (Op Spec.Flow)) (hadd : ∀ e ∈ added ops, e = toEntry e.data ∧ FlowOk e.data)
-    (p : PHdr) (port : Nat) (hr : regular p = true) (hpt : pktTos p % 4 = 0) :
-    Spec.IsBest ((run ops).map (·.data)) (Spec.headers p port) ((entryForPacket (run ops) p port).map (·.data)) :=
-  lookup_isBest (run ops) (history_sorted ops) (fun e he => hadd e (mem_run ops e he)) p port hr hpt
+    currently in the table outranks (exact-match flows above every priority) — and with a miss exactly when none matches.
+    `v.FlowOk` and `v.regular` shrink with the repairs: for `Variant.repaired` what is left is "16-bit priority, ToS without ECN
+    bits" on the flows and "complete frame, ToS without ECN bits" on the frame (`history_lookup_wire_repaired`). -/
+theorem history_lookup_wire (v : Variant) (ops : List (Op Spec.Flow)) (hadd : ∀ e ∈ added ops, e = v.toEntry e.data ∧ v.FlowOk e.data)
+    (p : PHdr) (port : Nat) (hr : v.regular p = true) (hpt : pktTos p % 4 = 0) :
+    Spec.IsBestSig ((run v.effectivePriority ops).map (·.data)) (Spec.headers p port)
+      ((v.entryForPacket (run v.effectivePriority ops) p port).map (·.data)) :=
+  v.lookup_isBest (run v.effectivePriority ops) (history_sorted v ops) (fun e he => hadd e (mem_run _ ops e he)) p port hr hpt
+
+open TableOps in
+/-- the same with all three repairs: no hypothesis about wildcarded prerequisite fields, about exact flows, or about ARP opcodes -/
+theorem history_lookup_wire_repaired (ops : List (Op Spec.Flow))
+    (hadd : ∀ e ∈ added ops, e = Variant.repaired.toEntry e.data ∧ e.data.priority ≤ 0xffff ∧ e.data.mtch.nwTos % 4 = 0)
+    (p : PHdr) (port : Nat) (hr : regularG false p = true) (hpt : pktTos p % 4 = 0) :
+    Spec.IsBestSig ((run Variant.repaired.effectivePriority ops).map (·.data)) (Spec.headers p port)
+      ((Variant.repaired.entryForPacket (run Variant.repaired.effectivePriority ops) p port).map (·.data)) :=
+  history_lookup_wire Variant.repaired ops
+    (fun e he => ⟨(hadd e he).1, Variant.FlowOk.mk (hadd e he).2.1 (fun h => absurd h (by decide)) (hadd e he).2.2
+                                  (fun h => absurd h (by decide))⟩) p port hr hpt
+
+/-! ## the variants: what each repair buys -/
+
+/-- `matches_iff` for every variant: `PrereqExact` is needed only without repair D38, the 8-bit ARP opcode (inside `v.regular`) only
+    without repair D37 -/
+theorem matches_iff_v (v : Variant) (r : OfMatch) (p : PHdr) (port : Nat) (hp : v.prereqExact = false → PrereqExact r)
+    (ht : r.nwTos % 4 = 0) (hr : v.regular p = true) (hpt : pktTos p % 4 = 0) :
+    (v.ofWire r).matchesWith false (v.fromPacket p port) = Spec.matchHdr r (Spec.headers p port) :=
+  v.wire_accepts_packet r p port hp ht hr hpt
+
+/-- extraction is the standard's, in every variant (with repair D37: for every ARP opcode) -/
+theorem extract_ok_v (v : Variant) (p : PHdr) (port : Nat) (hr : v.regular p = true) :
+    ExtractOk p (v.extract true p (some port)) (Spec.headers p port) := v.extract_ok p port hr
+
+/-- exactness of a received flow: with repair D26 the code's test *is* the standard's (prerequisite-rule reading), for every
+    transmitted match; without it the two agree on flows that, when exact, carry no wildcard bit and are IPv4 TCP/UDP/ICMP -/
+theorem exact_iff_v (v : Variant) (r : OfMatch)
+    (hx : v.exactSig = false → Spec.exactSig r = true → Spec.exact r = true ∧ r.dlType = 0x0800 ∧ isL4Proto r.nwProto = true) :
+    v.isWildcarded (v.ofWire r) = !Spec.exactSig r := v.exact_agree r hx
+
+/-- subsumption in every variant -/
+theorem subsumes_iff_v (v : Variant) (a b : OfMatch) (ha : v.prereqExact = false → PrereqExact a)
+    (hb : v.prereqExact = false → PrereqExact b) (ta : a.nwTos % 4 = 0) (tb : b.nwTos % 4 = 0) (hbw : b.wildcards < 2 ^ 22) :
+    (v.ofWire a).matchesWith true (v.ofWire b) = true ↔
+      ∀ h : Spec.Headers, Spec.matchHdr b h = true → Spec.matchHdr a h = true := by
+  rw [v.code_subsumes a b ha hb ta tb hbw]
+  exact Spec.subsumes_forall a b
+
+/-- a flow built from a packet matches it, in every variant -/
+theorem flow_from_packet_matches_v (v : Variant) (sf : Bool) (p : PHdr) (ip : Option Nat) :
+    (v.ofWire (packFlowMod (fromHeaders (v.extract sf p ip)))).matchesWith false (fromHeaders (v.extract sf p ip)) = true :=
+  v.selfflow_accepts sf p ip
 
 /-! ## subsumption (used by the non-strict MODIFY / DELETE of C04) -/
 
@@ -271,19 +381,35 @@ def demoOps : List (TableOps.Op Spec.Flow) :=
    .add (toEntry ⟨0xffff, { srcPrefix8 with wildcards := wc [.dlType] 32 32 }⟩), .removeAt 1,
    .removeMatching (ofWire { srcPrefix8 with wildcards := wc [.dlType] 32 32 }) 5 true (fun _ => true),
    .expire (fun e => e.priority == 100 && e.mtch.isWildcarded && e.data.mtch.inPort == 1)]
-example : ∀ e ∈ TableOps.added demoOps, e = toEntry e.data ∧ FlowOk e.data := by
+example : ∀ e ∈ TableOps.added demoOps, e = Variant.head.toEntry e.data ∧ Variant.head.FlowOk e.data := by
   intro e he
   simp only [demoOps, TableOps.added, List.mem_cons, List.not_mem_nil, or_false] at he
   rcases he with rfl | rfl | rfl | rfl <;>
-    exact ⟨rfl, ⟨by decide, ⟨by decide, by decide⟩, by decide, by decide⟩⟩
-example : (TableOps.run demoOps).map (·.priority) = [1, 100] := by decide
-example : (TableOps.run (demoOps.take 5)).map (·.priority) = [1, 0xffff, 100, 100] := by decide
-example : (TableOps.step (TableOps.run (demoOps.take 3)) (.removeAt 7)).2 = true := by decide
-example : ((entryForPacket (TableOps.run demoOps) tcpFrame 1).map (·.data.priority)) = some 1 := by decide
-example : ((entryForPacket (TableOps.run demoOps) tcpFrame 2).map (·.data.priority)) = some 100 := by decide
-example : entryForPacket (TableOps.run demoOps) (arpFrame 1) 1 = none := by decide
+    exact ⟨rfl, ⟨by decide, fun _ => ⟨by decide, by decide⟩, by decide, fun _ => by decide⟩⟩
+example : (TableOps.run Entry.effectivePriority demoOps).map (·.priority) = [1, 100] := by decide
+example : (TableOps.run Entry.effectivePriority (demoOps.take 5)).map (·.priority) = [1, 0xffff, 100, 100] := by decide
+example : (TableOps.step Entry.effectivePriority (TableOps.run Entry.effectivePriority (demoOps.take 3)) (.removeAt 7)).2 = true := by decide
+example : ((entryForPacket (TableOps.run Entry.effectivePriority demoOps) tcpFrame 1).map (·.data.priority)) = some 1 := by decide
+example : ((entryForPacket (TableOps.run Entry.effectivePriority demoOps) tcpFrame 2).map (·.data.priority)) = some 100 := by decide
+example : entryForPacket (TableOps.run Entry.effectivePriority demoOps) (arpFrame 1) 1 = none := by decide
 -- equal priorities: the newer entry goes in front of the older one
-example : (TableOps.run (demoOps.take 2)).map (·.data.mtch.inPort) = [0, 1] := by decide
+example : (TableOps.run Entry.effectivePriority (demoOps.take 2)).map (·.data.mtch.inPort) = [0, 1] := by decide
+
+-- flows built from packets: exact for TCP (also through VLAN / SNAP), matching for every shape
+example : regular tcpFrame = true ∧ isL4Packet tcpFrame = true ∧ packFlowMod (fromPacket tcpFrame 1) = tcpExact := by decide
+example : (ofWire (packFlowMod (fromPacket snapFrame 3))).isExact = true := by decide
+example : (ofWire (packFlowMod (fromPacketG true false (arpFrame 2) none))).matchesWith false (fromPacket (arpFrame 2) 9) = true := by decide
+
+-- the repaired variant on the witnesses of the open findings: D26 (the exact ARP flow wins), D38 (the value of a wildcarded dl_type
+-- no longer matters), D37 (opcode 257 is extracted as nw_proto 1); its hypotheses are satisfiable
+example : ((Variant.repaired.entryForPacket (TableOps.run Variant.repaired.effectivePriority
+    [.add (Variant.repaired.toEntry ⟨1, arpExact⟩), .add (Variant.repaired.toEntry ⟨100, inPort1⟩)]) (arpFrame 1) 1).map (·.data.priority)) = some 1 := by
+  decide
+example : (Variant.repaired.ofWire { zeroMatch with wildcards := wc [.nwProto] 32 32, dlType := 0x0800, nwProto := 7 }).matchesWith false
+    (Variant.repaired.fromPacket tcpFrame 1) = true := by decide
+example : (Variant.repaired.extract true (arpFrame 257) (some 1)).nwProto = some 1 ∧ Variant.repaired.regular (arpFrame 257) = true := by decide
+example : Variant.repaired.isWildcarded (Variant.repaired.ofWire arpExact) = false ∧ Spec.exactSig arpExact = true ∧
+    Variant.head.isWildcarded (Variant.head.ofWire arpExact) = true := by decide
 
 -- subsumption: both outcomes
 example : (ofWire srcPrefix8).matchesWith true (ofWire tcpExact) = true := by decide
@@ -318,6 +444,12 @@ theorem matches_prereq_defect :
 theorem extract_arp_defect :
     (extract (arpFrame 257) (some 1)).nwProto = none ∧ (extract (arpFrame 257) (some 1)).nwSrc = none ∧
     (Spec.headers (arpFrame 257) 1).nwProto = 1 ∧ (Spec.headers (arpFrame 257) 1).nwSrc = 0x0a000001 := by decide
+
+/-- D26 seen from the packet side: the flow built from a complete ARP request by `from_packet` / `pack` has no wildcard bit on the
+    wire, yet the switch treats it as wildcarded (it keeps its own priority instead of the exact-match priority). -/
+theorem flow_from_packet_exact_defect :
+    regular (arpFrame 1) = true ∧ (packFlowMod (fromPacket (arpFrame 1) 1)).wildcards = 0 ∧
+    (ofWire (packFlowMod (fromPacket (arpFrame 1) 1))).isWildcarded = true := by decide
 
 /-- D26: a flow sent without any wildcard bit that is not an IPv4 TCP/UDP/ICMP flow (here: the exact flow of an ARP request)
     is un-wired to a wildcarded match, keeps its own priority and loses against a wildcarded flow of higher priority, although
